@@ -182,6 +182,7 @@ fn main() {
     let budget = if opts.thorough() { 100_000 } else { 5_000 };
     let stats = Arc::new(Stats { executions: Default::default(), decisions: Default::default(), distinct: Default::default() });
     let mut distinct_total = 0u64;
+    let mut pbt = PbTotals::default();
     for (i, s) in scns.iter().enumerate() {
         if i as u64 % opts.nshards != opts.shard {
             continue;
@@ -193,7 +194,22 @@ fn main() {
         let sc = *s;
         let before_exec = stats.executions.load(Ordering::Relaxed);
         stats.distinct.lock().unwrap().clear();
-        let fails = explore(move || scenario(sc), budget, opts.seed + i as u64 * 31, &stats, 3);
+        // --part pb|sampled restricts the run to one half (used to measure what each half catches)
+        let part = opts.flag("part").unwrap_or("both").to_string();
+        let fails = if part != "pb" { explore(move || scenario(sc), budget, opts.seed + i as u64 * 31, &stats, 3) } else { vec![] };
+        // systematic part: every schedule with at most `bound` preemptions (CHESS-style), see sched::enumerate_pb
+        let small = s.threads == 2 && s.pairs == 1;
+        let (bound, cap) = if opts.thorough() {
+            if small && s.clock_step == 0 { (3, 2_000_000) } else if s.threads == 2 { (2, 600_000) } else { (2, 300_000) }
+        } else if small && s.clock_step == 0 {
+            (2, 40_000)
+        } else {
+            (1, 8_000)
+        };
+        let pb = enumerate_pb(move || scenario(sc), bound, if part == "sampled" { 1 } else { cap }, 0, 1, &stats, 3);
+        pbt.add(&s.name(), &pb);
+        let mut fails = fails;
+        fails.extend(pb.failures.clone());
         let execs = stats.executions.load(Ordering::Relaxed) - before_exec;
         let d = stats.distinct.lock().unwrap().len() as u64;
         distinct_total += d;
@@ -220,5 +236,6 @@ fn main() {
     rep.extra.insert("executions".into(), json!(stats.executions.load(Ordering::Relaxed)));
     rep.extra.insert("scheduling_decisions".into(), json!(stats.decisions.load(Ordering::Relaxed)));
     rep.extra.insert("distinct_schedules".into(), json!(distinct_total));
+    pbt.into_extra(&mut rep.extra);
     rep.finish()
 }
